@@ -13,6 +13,10 @@ import Driver.Common
     iview <id> <view> <k> sel…            IndexedArray over a view; sel = i<idx id> | l<a,b,c> | n<scalar>
     asg|fasg|fcadd|fcmul v<id> <expr>     sca v<id> <int>     cadd|csub|cmul|cdiv v<id> <expr>
     whr v<id> <mask> ; <wrhs>             weo v<id> <mask> ; <wrhs> ; <wrhs>        wrhs = s<int> | <expr>
+    wcadd|wcsub|wcmul|wcdiv v<id> <mask> ; <wrhs>          A.where(mask) OP= rhs
+    fwhr|fwcadd|fwcsub|fwcmul|fwcdiv v<id> <mask> ; <wrhs> the same on a FixedArray target (no alias test)
+    fweo v<id> <mask> ; <wrhs> ; <wrhs>                    F.where(mask) = either_or(c, d) on a FixedArray
+    ilst|filst v<id> <nrows> <n0> x.. <n1> x.. ..          target = {x..} (rank 1) / {{..},{..}} (rank 2); iilst w<id> 1 <n> x..
     iasg|icadd|icsub|icmul|icdiv w<id> <expr>     isca w<id> <int>
     dump <base> <n>
     red <fn> <expr>   redd <fn> <dim> <expr>   redb <fn> <mask>   reddb <fn> <dim> <mask>
@@ -181,6 +185,62 @@ def parseSel (s : St) (t : String) : Option Sel :=
 
 def bad (s : St) : St × String := (s, "bad-op")
 
+/-- `<n0> x.. <n1> x.. ..` -/
+def parseRows : Nat → List String → Option (List (List Int))
+  | 0, [] => some []
+  | 0, _ => none
+  | k + 1, n :: rest => do
+    let n ← n.toNat?
+    if rest.length < n then none else
+    let xs ← ints (rest.take n)
+    let more ← parseRows k (rest.drop n)
+    pure (xs :: more)
+  | _, _ => none
+
+def ilStep (s : St) (op tgt : String) (rest : List String) : St × String :=
+  match rest with
+  | nr :: body =>
+    match nr.toNat?.bind (fun k => parseRows k body) with
+    | some rows =>
+      if op == "iilst" then
+        match (idOf "w" tgt).bind (lookup s.iviews), rows with
+        | some w, [xs] => (s.absorb (indexedIlAssign1 w xs s.mem), "ok")
+        | _, _ => bad s
+      else
+        match (idOf "v" tgt).bind (lookup s.views) with
+        | some v =>
+          match v.dims.length, rows with
+          | 1, [xs] => (s.absorb (ilAssign1 v xs s.mem), "ok")
+          | 2, _ => (s.absorb ((if op == "filst" then fixedIlAssign2 else ilAssign2) v rows s.mem), "ok")
+          | _, _ => bad s
+        | none => bad s
+    | none => bad s
+  | [] => bad s
+
+/-- where-family ops other than `whr`/`weo`: (FixedArray target?, compound operator) -/
+def whereOp? : String → Option (Bool × Option BOp)
+  | "wcadd" => some (false, some .add) | "wcsub" => some (false, some .sub)
+  | "wcmul" => some (false, some .mul) | "wcdiv" => some (false, some .div)
+  | "fwhr" => some (true, none)
+  | "fwcadd" => some (true, some .add) | "fwcsub" => some (true, some .sub)
+  | "fwcmul" => some (true, some .mul) | "fwcdiv" => some (true, some .div)
+  | _ => none
+
+def whereStep (s : St) (fx : Bool) (cop : Option BOp) (v : String) (rest : List String) : St × String :=
+  match (idOf "v" v).bind (lookup s.views), parseMask s rest with
+  | some v, some (mask, ";" :: r1) =>
+    match parseWRhs s r1 with
+    | some (rhs, []) =>
+      let a := rhs.toExpr.isAliased v.dataRange.1 v.dataRange.2
+      let m' := match fx, cop with
+        | false, some op => whereCompound op v mask rhs s.mem
+        | false, none => whereAssign v mask rhs s.mem
+        | true, some op => fixedWhereCompound op v mask rhs s.mem
+        | true, none => fixedWhereAssign v mask rhs s.mem
+      (s.absorb m', aflag a)
+    | _ => bad s
+  | _, _ => bad s
+
 def step (s : St) (ws : List String) : St × String :=
   match ws with
   | ["reset"] => ({}, "reset")
@@ -252,6 +312,16 @@ def step (s : St) (ws : List String) : St × String :=
         | _ => bad s
       | _ => bad s
     | _, _ => bad s
+  | "fweo" :: v :: rest =>
+    match (idOf "v" v).bind (lookup s.views), parseMask s rest with
+    | some v, some (mask, ";" :: r1) =>
+      match parseWRhs s r1 with
+      | some (c, ";" :: r2) =>
+        match parseWRhs s r2 with
+        | some (d, []) => (s.absorb (fixedWhereEitherOr v mask c d s.mem), "ok")
+        | _ => bad s
+      | _ => bad s
+    | _, _ => bad s
   | "red" :: f :: rest =>
     match parseRFn f, parseExpr s rest, exprDims s rest with
     | some f, some (e, []), some (ds, _) => (s, "R " ++ showRVal (reduceAll f e ds s.mem))
@@ -282,6 +352,8 @@ def step (s : St) (ws : List String) : St × String :=
       | _ => bad s
     | _, _ => bad s
   | op :: tgt :: rest =>
+    if let some (fx, cop) := whereOp? op then whereStep s fx cop tgt rest else
+    if op == "ilst" || op == "filst" || op == "iilst" then ilStep s op tgt rest else
     if op == "minloc" || op == "maxloc" then
       match parseExpr s (tgt :: rest), exprDims s (tgt :: rest) with
       | some (e, []), some ([n], _) => (s, s!"R {if op == "minloc" then minloc e n s.mem else maxloc e n s.mem}")
